@@ -169,6 +169,18 @@ def _apply(u, st, other):
 CREATORS = ("ctor", "build")
 
 
+def _same(a, b):
+    """argument object unchanged (type, order, values incl. NaN identity by repr)"""
+    try:
+        if type(a) is not type(b):
+            return False
+        if hasattr(a, "items"):
+            return [(k, repr(v)) for k, v in a.items()] == [(k, repr(v)) for k, v in b.items()]
+        return repr(a) == repr(b)
+    except Exception:  # noqa: BLE001
+        return False
+
+
 def run_prog(prog, fields=None, extras=()):
     """Execute a program; yields one record per step.  Stops at the first step that raises."""
     u = None
@@ -187,14 +199,31 @@ def run_prog(prog, fields=None, extras=()):
             rec["other"] = {"ok": obs(other, fields)}
         if u is not None:
             rec["self"] = obs(u, fields)
+        argobj = before = None
+        if st["op"] in ("with_query", "extend_query", "update_query", "mod") and st["q"]["form"] not in ("none", "str"):
+            a_, kw_ = qarg_py(st["q"])
+            argobj = a_[0] if a_ else kw_
+            before = copy.deepcopy(argobj)
         try:
-            nu = _create(st) if st["op"] in CREATORS else _apply(u, st, other)
+            if argobj is not None:
+                if st["op"] == "mod":
+                    nu = u % argobj
+                elif st["q"]["form"] == "kwargs":
+                    nu = getattr(u, st["op"])(**argobj)
+                else:
+                    nu = getattr(u, st["op"])(argobj)
+            else:
+                nu = _create(st) if st["op"] in CREATORS else _apply(u, st, other)
         except BaseException as e:  # noqa: BLE001
             if isinstance(e, (KeyboardInterrupt, SystemExit)):
                 raise
             rec["out"] = {"exc": type(e).__name__}
+            if argobj is not None:
+                rec["arg_unchanged"] = _same(argobj, before)
             recs.append(rec)
             break
+        if argobj is not None:
+            rec["arg_unchanged"] = _same(argobj, before)
         if not isinstance(nu, _yarl.URL):
             rec["out"] = {"exc": "NotURL:" + type(nu).__name__}
             recs.append(rec)
